@@ -9,6 +9,7 @@ import (
 	"io"
 	"math"
 	"os"
+	"path/filepath"
 	"regexp"
 	"sort"
 	"strconv"
@@ -362,6 +363,8 @@ type c09Case struct {
 	s        *Store
 	ctl      *c09Ctl
 	t        *verifh.T
+	dir      string  // root directory of the disk store
+	faults   map[string]string // planted directories (key token + suffix token -> path)
 	files    []*File // handles kept open (nil: closed)
 	split    []int   // worker steps at the points of the client operation in progress (nil: not armed)
 	splitIdx int
@@ -644,6 +647,49 @@ func (c *c09Case) do(op []string) bool {
 			return false
 		}
 		t.Op(full, fmt.Sprint(f.Size()))
+	case a[0] == "mdfault" && len(a) == 3:
+		// make the disk store's next write of this sidecar fail: it writes "<suffix>-tmp" first, a directory
+		// of that name makes the open fail. Only for a blob that is complete in memory and fully flushed
+		// (complete on disk, unknown to the flusher), so that the next metadata update is a metadata-only flush.
+		key, ok1 := c09KeyName(a[1])
+		md, ok3 := c09MdOf(a[2])
+		if !ok1 || !ok3 || strings.HasPrefix(md.suffix, "_vu") || c.faults[a[1]+a[2]] != "" {
+			return false
+		}
+		_, inMem := s.impl.mem.ScopeComplete().Has(key)
+		_, onDisk := s.impl.disk.ScopeComplete().Has(key)
+		fl := s.impl.flusher
+		fl.mu.Lock()
+		_, dirty := fl.blobs[key]
+		fl.mu.Unlock()
+		if !inMem || !onDisk || dirty {
+			return false
+		}
+		blobDir := ""
+		filepath.WalkDir(filepath.Join(c.dir, "complete"), func(path string, d os.DirEntry, err error) error {
+			if err == nil && d.IsDir() && d.Name() == key {
+				blobDir = path
+				return filepath.SkipAll
+			}
+			return nil
+		})
+		if blobDir == "" {
+			return false
+		}
+		fp := filepath.Join(blobDir, md.suffix+"-tmp")
+		if err := os.Mkdir(fp, 0o755); err != nil {
+			return false
+		}
+		c.faults[a[1]+a[2]] = fp
+		t.Op(full, "ok")
+	case a[0] == "mdunfault" && len(a) == 3:
+		fp := c.faults[a[1]+a[2]]
+		if fp == "" {
+			return false
+		}
+		delete(c.faults, a[1]+a[2])
+		os.RemoveAll(fp)
+		t.Op(full, "ok")
 	case a[0] == "hclose" && len(a) == 2:
 		i, f := c.handle(a[1])
 		if i < 0 {
@@ -802,7 +848,7 @@ func c09Exec(t *verifh.T, cs verifh.Case) {
 	if err != nil {
 		panic(err)
 	}
-	c := &c09Case{s: s, ctl: ctl, t: t}
+	c := &c09Case{s: s, ctl: ctl, t: t, dir: dir, faults: map[string]string{}}
 	ctl.cs = c
 	cfg := []string{fmt.Sprintf("mcap=%d", mcap), fmt.Sprintf("dcap=%d", dcap)}
 	if buf > 0 {
@@ -944,6 +990,17 @@ func c09Random(r *verifh.Rand, tr *verifh.T) verifh.Case {
 		}
 		k := keys[r.Intn(len(keys))]
 		sc := c09Scopes[r.Intn(len(c09Scopes))]
+		if r.Chance(1, 30) {
+			// a metadata update whose flush to the disk store fails (only armed on a fully flushed blob)
+			x := sfx[r.Intn(2)]
+			ops = append(ops, []string{"drain"}, c09Op("mdfault", k, x), c09Op("setmd", k, "any", x, verifh.Hex(r.Bytes(1))))
+			for j := r.Intn(8); j > 0; j-- {
+				ops = append(ops, c09Step)
+			}
+			ops = append(ops, []string{"drain"}, c09Op("mdunfault", k, x))
+			tr.Count("random_mdfault", 1)
+			continue
+		}
 		var o []string
 		switch w := r.Intn(112); {
 		case w < 20:
@@ -1142,6 +1199,11 @@ func c09Scripts() []c09Script {
 		{std, [][]string{ // an empty blob: flushed like any other; the blob completed after it squeezes it out of memory
 			c09Op("create", "k0", "0", "x"), c09Op("setmd", "k0", "any", "m0", "x01"), c09Op("complete", "k0"),
 			c09Op("create", "k1", "2", "xb1b2"), c09Op("complete", "k1"), c09Op("setmd", "k0", "any", "m1", "x02"),
+		}},
+		{std, [][]string{ // a metadata-only flush whose write to the disk store fails: the flusher drops the blob from disk
+			c09Op("create", "k0", "1", "xa1"), c09Op("setmd", "k0", "any", "m0", "x01"), c09Op("complete", "k0"), {"drain"},
+			c09Op("mdfault", "k0", "m0"), c09Op("setmd", "k0", "any", "m0", "x02"), c09Op("setmd", "k0", "any", "m1", "x03"),
+			c09Op("getmd", "k0", "any", "m0"),
 		}},
 		{[]string{"mcap=4", "dcap=3"}, [][]string{ // the flush of k1 evicts the flushed k0 from disk while k0 has dirty metadata in memory
 			c09Op("create", "k0", "2", "xa1a2"), c09Op("complete", "k0"), {"drain"}, c09Op("setmd", "k0", "any", "m0", "x01"),
